@@ -140,8 +140,10 @@ func RealNewKey(tp, ns, app, pod, pool string) (string, *util.KeyObj) {
 	return s, ko
 }
 
-func RealATP(kind string) string { return guarded(func() string { return Enc(util.GetAppTypePrefix(kind)) }) }
-func RealAT(tp string) string    { return guarded(func() string { return Enc(util.GetAppType(tp)) }) }
+func RealATP(kind string) string {
+	return guarded(func() string { return Enc(util.GetAppTypePrefix(kind)) })
+}
+func RealAT(tp string) string { return guarded(func() string { return Enc(util.GetAppType(tp)) }) }
 
 func RealParsePage(s string) string {
 	return guarded(func() string { return strconv.Itoa(page.ParsePage(s)) })
@@ -359,4 +361,3 @@ func KindClass(k string) string {
 	}
 	return "custom"
 }
-
